@@ -324,9 +324,9 @@ def measure_nsite_exact(self, *operators, sites=None) -> float:
     maxx = max(site[0] for site in sites)  # br corner
     maxy = max(site[1] for site in sites)
 
-    if minx == maxx and self.nn_site((minx, miny), 'b') is None:
+    if minx == maxx and self.nn_site((minx, miny), 'b') is None and self.nn_site((minx, miny), 't') is not None:
         minx -= 1  # for a finite system
-    if miny == maxy and self.nn_site((minx, miny), 'r') is None:
+    if miny == maxy and self.nn_site((minx, miny), 'r') is None and self.nn_site((minx, miny), 'l') is not None:
         miny -= 1  # for a finite system
 
     Nx, Ny = maxx - minx + 1, maxy - miny + 1
